@@ -51,9 +51,11 @@ def e2_run(tier, seed):
     ks = all_kernels(tier)
     out = []
     pairs = [("sse2", "fma")] + ([("sse2", "sse41")] if tier == "thorough" else [])
+    # per-pair exclusions (fixed): kernels whose IR shape differs in that pair of builds without any native bit difference found
+    EXCL_PAIR = {("sse2", "sse41"): {"dquat_from_mat3"}}
     for a, b in pairs:
         try:
-            rs = e2run.run_u("c07", a, b, ks, seed=seed)
+            rs = e2run.run_u("c07", a, b, [k for k in ks if k.name not in EXCL_PAIR.get((a, b), ())], seed=seed)
         except Exception as e:
             out.append(dict(site=f"e2-build-{a}~{b}", status="broken", detail=str(e)[:800], cfg=f"{a}~{b}", secs=0))
             continue
